@@ -1464,9 +1464,12 @@ def c19_records(case):
 _LOTNUM = re.compile(r"L(\d+)$")
 
 
-def _c06_obs(text, suppress, table, seq=False):
+def _c06_obs(text, suppress, table, seq=False, cfgx=None):
     import pytrs
-    if seq:
+    if cfgx:
+        # the same depth settings for the whole and for every part
+        t = pytrs.Tract(text, parse_qq=True, config=",".join(x for x in ("suppress_lot_divs" if suppress else None, cfgx) if x))
+    elif seq:
         # the same final settings reached through a history: committed parse under the opposite setting, an
         # uncommitted parse under other settings, then the committed parse that is observed
         t = pytrs.Tract(text, parse_qq=True, config="suppress_lot_divs.%s" % (not suppress))
@@ -1488,10 +1491,10 @@ def c06(case):
     a = case["args"]
     table = {}
     try:
-        whole = _c06_obs(a["text"], a["suppress"], table, seq=bool(a.get("seq")))
+        whole = _c06_obs(a["text"], a["suppress"], table, seq=bool(a.get("seq")), cfgx=a.get("cfgx"))
         parts = []
         for el in a["elements"]:
-            p = _c06_obs(el["text"], a["suppress"], table)
+            p = _c06_obs(el["text"], a["suppress"], table, cfgx=a.get("cfgx"))
             div_ok = True
             if el["kind"] == "DIV":
                 pre = el["div_prefix"]
